@@ -19,9 +19,45 @@ var (
 	DiskEffects *EffectLog
 )
 
+// diskAliases maps a directory spelling to the directory it designates (a
+// symbolic link natively): see DirAlias.
+var diskAliases = map[string]string{}
+
+// resolveAlias rewrites a path that goes through an aliased directory.
+func resolveAlias(path string) string {
+	for a, t := range diskAliases {
+		if path == a {
+			return t
+		}
+		if strings.HasPrefix(path, a+"/") {
+			return t + path[len(a):]
+		}
+	}
+	return path
+}
+
+// DirAlias returns ANOTHER spelling of the directory Dir(target) designates:
+// natively a symbolic link to it; under the interpreter (dirAliasModel) the
+// alias path itself, which the disk model resolves to the target.
+func DirAlias(alias, target string) string {
+	a, t := Dir(alias), Dir(target)
+	_ = os.MkdirAll(filepath.Dir(a), 0o755)
+	_ = os.MkdirAll(t, 0o755)
+	_ = os.Symlink(t, a)
+	return a
+}
+
+func dirAliasModel(alias, target string) string {
+	diskMu.Lock()
+	defer diskMu.Unlock()
+	diskAliases[alias] = target
+	return alias
+}
+
 func DiskOpen(path string) (*Cache, error) {
 	diskMu.Lock()
 	defer diskMu.Unlock()
+	path = resolveAlias(path)
 	if path == "" {
 		// in-memory leveldb: a fresh private store
 		return NewCache(DiskEffects), nil
@@ -46,6 +82,7 @@ var errDiskLocked = errors.New("leveldb: resource temporarily unavailable (direc
 func DiskRemoveAll(path string) error {
 	diskMu.Lock()
 	defer diskMu.Unlock()
+	path = resolveAlias(path)
 	for p := range disk {
 		if p == path || strings.HasPrefix(p, path+"/") {
 			delete(disk, p)
@@ -76,6 +113,7 @@ func DiskHas(path string) bool {
 func diskHasModel(path string) bool {
 	diskMu.Lock()
 	defer diskMu.Unlock()
+	path = resolveAlias(path)
 	c, ok := disk[path]
 	return ok && len(c.M) > 0
 }
